@@ -9,6 +9,8 @@ use ts_rs::verif;
 
 mod universe;
 
+static RAW_ITEMS: std::sync::Mutex<Vec<(String, String)>> = std::sync::Mutex::new(Vec::new());
+
 pub fn esc(s: &str) -> String {
     s.replace('\\', "\\\\").replace('\t', "\\t").replace('\n', "\\n").replace('\r', "\\r")
 }
@@ -49,6 +51,84 @@ fn run(f: &[String]) -> Result<Vec<String>, String> {
             res(verif::import_path(&base.join(arg(2)?), &base.join(arg(3)?)))
         }
         "merge" => Ok(vec![verif::merge(arg(1)?, arg(2)?)]),
+        // raw export histories on one file: `rawitem <ident> <text>` registers an item,
+        // `rawhist <file> <stale|-> <i,j,k>` runs export_and_merge for the items in that order
+        // (fresh registry; the file is removed or pre-filled with stale text first) and returns the
+        // per-step results and the final file content
+        "rawitem" => {
+            RAW_ITEMS.lock().unwrap().push((arg(1)?, arg(2)?));
+            Ok(vec![])
+        }
+        "rawhist" => {
+            let file = std::path::PathBuf::from(arg(1)?);
+            let items = RAW_ITEMS.lock().unwrap().clone();
+            verif::reset_registry();
+            let _ = std::fs::remove_file(&file);
+            if arg(2)? != "-" {
+                std::fs::write(&file, arg(2)?).map_err(|e| e.to_string())?;
+            }
+            let mut steps = String::new();
+            for ix in arg(3)?.split(',').filter(|x| !x.is_empty()) {
+                let (ident, text) = items[ix.parse::<usize>().map_err(|e| e.to_string())?].clone();
+                let r = catch_unwind(AssertUnwindSafe(|| verif::export_and_merge(file.clone(), ident, text)));
+                steps.push(match r {
+                    Ok(Ok(())) => 'O',
+                    Ok(Err(_)) => 'E',
+                    Err(_) => 'P',
+                });
+                if !steps.ends_with('O') {
+                    break;
+                }
+            }
+            let content = std::fs::read(&file).map(|b| String::from_utf8_lossy(&b).into_owned()).unwrap_or_default();
+            Ok(vec![steps, content])
+        }
+        // the same items exported from concurrent threads; a seeded perturbation at the yield
+        // points; returns the recorded (thread, point) trace and the final content
+        "rawthreads" => {
+            let file = std::path::PathBuf::from(arg(1)?);
+            let items = RAW_ITEMS.lock().unwrap().clone();
+            let seed: u64 = arg(2)?.parse().map_err(|_| "seed")?;
+            let ixs: Vec<usize> = arg(3)?.split(',').filter(|x| !x.is_empty()).map(|x| x.parse().unwrap()).collect();
+            verif::reset_registry();
+            let _ = std::fs::remove_file(&file);
+            let trace = std::sync::Arc::new(std::sync::Mutex::new(Vec::<(String, u32)>::new()));
+            let t2 = trace.clone();
+            verif::set_yield_hook(Some(std::sync::Arc::new(move |n, _p: &Path, name: &str| {
+                t2.lock().unwrap().push((name.to_owned(), n));
+                // seeded perturbation: spin/yield a pseudo-random number of times
+                let mut h = seed ^ (n as u64).wrapping_mul(0x9E3779B97F4A7C15);
+                for b in name.bytes() {
+                    h = (h ^ b as u64).wrapping_mul(0x100000001B3);
+                }
+                for _ in 0..(h >> 60) {
+                    std::thread::yield_now();
+                }
+                if (h >> 55) & 3 == 0 {
+                    std::thread::sleep(std::time::Duration::from_micros((h >> 50) & 127));
+                }
+            })));
+            let barrier = std::sync::Arc::new(std::sync::Barrier::new(ixs.len()));
+            let mut handles = vec![];
+            for ix in ixs {
+                let (ident, text) = items[ix].clone();
+                let file = file.clone();
+                let barrier = barrier.clone();
+                handles.push(std::thread::spawn(move || {
+                    barrier.wait();
+                    match catch_unwind(AssertUnwindSafe(|| verif::export_and_merge(file, ident, text))) {
+                        Ok(Ok(())) => 'O',
+                        Ok(Err(_)) => 'E',
+                        Err(_) => 'P',
+                    }
+                }));
+            }
+            let steps: String = handles.into_iter().map(|h| h.join().unwrap_or('P')).collect();
+            verif::set_yield_hook(None);
+            let content = std::fs::read(&file).map(|b| String::from_utf8_lossy(&b).into_owned()).unwrap_or_default();
+            let tr: Vec<String> = trace.lock().unwrap().iter().map(|(n, k)| format!("{n}:{k}")).collect();
+            Ok(vec![steps, content, tr.join(",")])
+        }
         _ => universe::run(f),
     }
 }
